@@ -14,6 +14,8 @@ def main():
     for q in quals:
         r = eng.verify_function(q, mutate=mut)
         print('==', q, 'paths', r.paths, 'obligations', len(r.obligations), 'gen %.2fs' % r.seconds, r.error or '')
+        for w in getattr(r, 'warnings', []):
+            print('  WARNING', w)
         if r.error:
             continue
         t0 = time.time()
